@@ -79,6 +79,54 @@ def build_tree(g, a, b):
     return entries, expect
 
 
+def cli_rename_roots(R, g, fails, stats):
+    """the real `rename` command (operations/rename.rs: root handling, conflict pre-checks, apply) over several search roots:
+    default, a root nested below a directory whose own name carries the term, a repeated root. Afterwards every entry sits at
+    the path obtained by renaming its ancestors and itself, and nothing else has moved."""
+    r = g.r
+    n = 10 if R.tier == "quick" else 150
+    for i in range(n):
+        a, b = g.term_pair()
+        tree, expect = build_tree(g, a, b)
+        search, replace = gen.render(a, "Snake"), gen.render(b, "Snake")
+        dirs = [e["p"] for e in tree if e["k"] == "d"]
+        plain_dirs = [d for d in dirs if d not in expect]
+        below_hit = [d for d in plain_dirs if any(d.startswith(h + "/") for h in expect)]
+        # make sure the interesting shape exists: an ordinary directory below a directory that is renamed
+        if not below_hit:
+            hits = [d for d in dirs if d in expect and d.count("/") < 2]
+            if hits:
+                nd = hits[0] + "/srcdir"
+                tree = tree + [{"p": nd, "k": "d", "m": 0o755}, {"p": nd + "/" + search + "_inner.txt", "k": "f", "c": b"x\n", "m": 0o644}]
+                expect = dict(expect)
+                expect[nd + "/" + search + "_inner.txt"] = ("file", replace + "_inner.txt")
+                below_hit = [nd]
+        kind = ["nested_below_renamed", "default", "repeated", "nested_below_renamed"][i % 4]
+        if kind == "nested_below_renamed" and not below_hit:
+            kind = "default"
+        roots = {"default": [], "repeated": [".", "."], "nested_below_renamed": [".", below_hit[0] if below_hit else "."]}[kind]
+        want = set()
+        for e in tree:
+            comps = e["p"].split("/")
+            out = []
+            for k, c in enumerate(comps):
+                pre = "/".join(comps[:k + 1])
+                out.append(expect[pre][1] if pre in expect else c)
+            want.add("/".join(out))
+        with cli.Sandbox(tree) as sb:
+            rc, o, e = sb.run(["--no-auto-init", "-y", "rename", search, replace] + roots)
+            got = set(sb.snapshot().keys())
+            stats.setdefault("cli_roots", {})[kind] = stats.setdefault("cli_roots", {}).get(kind, 0) + 1
+            R.case(("cli_rename", kind, search, replace, json.dumps(cli.tree_json(tree), sort_keys=True)), nontrivial=bool(expect))
+            if rc != 0:
+                fails.append({"why": f"rename over roots {roots} failed: {e.decode('utf-8', 'replace')[-300:]}", "roots": roots,
+                              "tree": cli.tree_json(tree), "search": search, "replace": replace})
+            elif got != want:
+                fails.append({"why": f"after `rename {search} {replace} {' '.join(roots)}` the entries are not at the composed final paths: "
+                                     f"missing {sorted(want - got)[:4]}, unexpected {sorted(got - want)[:4]}", "roots": roots,
+                              "tree": cli.tree_json(tree), "search": search, "replace": replace})
+
+
 def run(R):
     R.trusted += ["Coq 8.16.1 kernel", "harness (scan_tree, variant_map, apply_tree)", "extraction + modelrun.ml"]
     proved = R.prove()
@@ -188,6 +236,7 @@ def run(R):
             R.sample({"renames": sorted((k, v[1]) for k, v in got.items())[:6], "flags": [rf, rd], "roots": roots})
     H.close()
     M.close()
+    cli_rename_roots(R, g, fails, stats)
     R.coverage["input_distribution"] = stats
     R.disagreements = len(dis)
     for f in fails[:3]:
